@@ -146,6 +146,13 @@ def ctx_include_in_choice(b):
     return ('alt', ('seq', ('inc', 'inc1'), T1), seq(b[1])), [gs.Rule('inc1', seq(b[0]))]
 
 
+def ctx_cut_after_abandoned_cut(b):
+    # the first option passes a cut (a fixed one, inside a nested choice) further on in the text and is given up in the regular way;
+    # the second option then passes its own cut at an earlier position: that cut commits like any other
+    nested = ('grp', ('alt', ('seq', T1, CUT, T2), ('seq', T1, T1)))
+    return ('alt', ('seq', T1, nested, T2), seq(b[0]), seq(b[1])), []
+
+
 def expansion(name, b):
     """The documentation's own equivalences as grammars (docs/syntax.rst, section on ~):
     [x] == B -> x | ();  {x} == B -> x B | ();  {x}+ == B -> x B | x.  Returns (start exp, rules) or None."""
@@ -172,6 +179,7 @@ CONTEXTS = [
     ('join-in-optional', 2, ctx_join_in_optional),
     ('pjoin-nullable-sep', 2, ctx_pjoin_nullable_sep), ('gather-nullable-sep', 2, ctx_gather_nullable_sep),
     ('include-in-closure-in-optional', 2, ctx_include_in_closure_in_optional), ('include-in-choice', 2, ctx_include_in_choice),
+    ('cut-after-abandoned-cut', 2, ctx_cut_after_abandoned_cut),
 ]
 
 # which body slots may receive cuts, per context (tails that are spliced into the
@@ -181,6 +189,7 @@ CUT_SLOTS = {
     'nested-choice': (0, 1), 'opt-in-closure': (0,), 'rule': (0, 1), 'rule-body': (0,), 'closure-in-choice': (0,),
     'pclosure-in-choice': (0,), 'closure-in-optional': (0,), 'optional-in-optional': (0,), 'join-in-optional': (0,),
     'pjoin-nullable-sep': (0,), 'gather-nullable-sep': (0,), 'include-in-closure-in-optional': (0,), 'include-in-choice': (0,),
+    'cut-after-abandoned-cut': (0,),
 }
 
 
